@@ -601,9 +601,9 @@ pub fn def() -> PropertyDef {
             "a release build with overflow checks behaves like the user's build apart from those checks",
         ],
         subs: vec![
-            Box::new(PSub { name: "parsers", quick: 30_000, thorough: 1_000_000, strat: parser_strategy, eval: eval_parsers }),
-            Box::new(PSub { name: "progressive_api", quick: 8_000, thorough: 400_000, strat: api_strategy, eval: eval_api }),
-            Box::new(PSub { name: "fragmented_api", quick: 8_000, thorough: 400_000, strat: frag_strategy, eval: eval_frag }),
+            Box::new(PSub { name: "parsers", quick: 40000, thorough: 1500000, strat: parser_strategy, eval: eval_parsers }),
+            Box::new(PSub { name: "progressive_api", quick: 12000, thorough: 600000, strat: api_strategy, eval: eval_api }),
+            Box::new(PSub { name: "fragmented_api", quick: 12000, thorough: 600000, strat: frag_strategy, eval: eval_frag }),
         ],
     }
 }
